@@ -1,4 +1,4 @@
-import MgpuProofs.C16Mem
+import MgpuProofs.C16Prog
 /-! # C16 — property theorems (address translation forwards every access faithfully, exactly once)
 
 All statements are about `run c ops`: the tick-exact model of the address translator started from
@@ -127,5 +127,91 @@ theorem at_flush_step (s : St) (rest : List Ctl) (h1 : s.ctlIn = .flush :: rest)
     (handleCtrl s).1.txs = [] ∧ (handleCtrl s).1.infl = [] ∧ (handleCtrl s).1.flushing = true ∧
     (handleCtrl s).1.epoch = s.epoch + 1 := by
   simp [handleCtrl, h1, h2]
+
+/-- **No loss (progress under a decreasing measure).** `mu` weighs the work the translator holds
+(9 per access waiting at the top port, 5 per access waiting in a transaction, 3/1 per message in an
+outgoing/incoming buffer, 1 per in-flight record). In every reachable state, for every configuration:
+1. with no control message pending, a tick never increases `mu`, and strictly decreases it whenever it
+   reports progress (so the component cannot spin without getting closer to completion);
+2. if the translator is not flushing, the environment has left room in the three outgoing buffers
+   and the translator holds anything it can act on (a memory response, a translation reply, an access at
+   the top port, or a completed transaction still holding requests), the tick *does* report progress
+   and `mu` strictly decreases — including the case where a reply arrived while the bottom port was
+   full (the transaction is already marked done; it is drained first, the stale reply is then dropped);
+3. draining a non-empty outgoing buffer strictly decreases `mu`;
+so as long as the environment keeps draining and answering, every accepted access moves on until
+nothing is held. When none of the cases of (2) applies, all that is left are transactions waiting for
+a translation reply and in-flight records waiting for a memory response, i.e. the environment's turn. -/
+theorem at_no_loss (c : Cfg) (ops : List Op) :
+    let s := run c ops
+    (s.ctlIn = [] → mu (tick c s).1 ≤ mu s ∧ ((tick c s).2 = true → mu (tick c s).1 < mu s)) ∧
+    (s.flushing = false → s.ctlIn = [] → 0 < c.width →
+      s.topOut.length < c.width → s.botOut.length < c.width → s.trOut.length < c.width →
+      (s.botIn ≠ [] ∨ s.trIn ≠ [] ∨ s.topIn ≠ [] ∨ ∃ t ∈ s.txs, t.done = true) →
+      (tick c s).2 = true ∧ mu (tick c s).1 < mu s) ∧
+    (s.topOut ≠ [] → mu (step c s .drainTop) < mu s) ∧
+    (s.botOut ≠ [] → mu (step c s .drainBot) < mu s) ∧
+    (s.trOut ≠ [] → mu (step c s .drainTr) < mu s) := by
+  intro s
+  have hd : DInv s := run_dinv c ops
+  have hne : ∀ t ∈ s.txs, t.reqs ≠ [] := fun t ht => ((run_minv c ops).tx t ht).1
+  refine ⟨tick_dec c s, ?_, ?_, ?_, ?_⟩
+  · intro hfl hctl hw h1 h2 h3 hact
+    have hflag : (tick c s).2 = true := by
+      obtain ⟨n, hn⟩ : ∃ n, c.width = n + 1 := ⟨c.width - 1, by omega⟩
+      have hpipe : (runPipeline c s).2 = true := by
+        simp only [runPipeline, Bool.or_eq_true]
+        by_cases hb : s.botIn = []
+        · have ha : iter (respond c) c.width s = (s, false) := iter_idle s (respond_idle c s hb) _
+          rw [ha]
+          by_cases hp : s.trIn ≠ [] ∨ ∃ t ∈ s.txs, t.done = true
+          · left; right
+            rw [hn]; exact iter_first n s (parse_enabled c s hd hne h2 hp)
+          · have hp1 : s.trIn = [] := by
+              cases h : s.trIn with
+              | nil => rfl
+              | cons a l => exact absurd (Or.inl (by simp [h])) hp
+            have hp2 : ∀ t ∈ s.txs, t.done = false := by
+              intro t ht
+              cases h : t.done with
+              | false => rfl
+              | true => exact absurd (Or.inr ⟨t, ht, h⟩) hp
+            have hbb : iter (parseTranslation c) c.width s = (s, false) :=
+              iter_idle s (parse_idle c s hp1 hp2) _
+            rw [hbb]
+            right
+            have htop : s.topIn ≠ [] := by
+              rcases hact with h | h | h | ⟨t, ht, h⟩
+              · exact absurd hb h
+              · exact absurd hp1 h
+              · exact h
+              · have := hp2 t ht; simp [h] at this
+            rw [hn]; exact iter_first n s (translate_enabled c s htop h3)
+        · left; left
+          rw [hn]; exact iter_first n s (respond_enabled c s hb h1)
+      simp only [tick, hfl, Bool.false_eq_true, if_false, Bool.or_eq_true]
+      exact Or.inr hpipe
+    exact ⟨hflag, (tick_dec c s hctl).2 hflag⟩
+  · intro h
+    cases hq : s.topOut with
+    | nil => exact absurd hq h
+    | cons a l => simp [step, mu, hq]
+  · intro h
+    cases hq : s.botOut with
+    | nil => exact absurd hq h
+    | cons a l => simp [step, mu, hq]
+  · intro h
+    cases hq : s.trOut with
+    | nil => exact absurd hq h
+    | cons a l => simp [step, mu, hq]
+
+/-- (2) of `at_no_loss` is met by a reachable state that holds a reply which arrived while the bottom
+port was full: the transaction is done, the reply still sits at the port head, the bottom buffer has
+been drained meanwhile. -/
+example :
+    let s := run ⟨1, 12⟩ (demoOps.take 11)
+    s.flushing = false ∧ s.ctlIn = [] ∧ s.botOut.length < 1 ∧ s.trIn.length = 1 ∧
+    (∃ t ∈ s.txs, t.done = true) ∧ mu s = 7 ∧ mu (tick ⟨1, 12⟩ s).1 = 6 := by
+  decide
 
 end C16
